@@ -3914,15 +3914,15 @@ func transformFunction(token Token) (pr.SDimensions, error) {
 		length := getLength(args[0], true, true)
 		switch name {
 		case "rotate":
-			if notNone && angle != 0 {
+			if notNone {
 				return pr.SDimensions{String: "rotate", Dimensions: []pr.Dimension{pr.FToD(pr.Fl(angle))}}, nil
 			}
 		case "skewx", "skew":
-			if notNone && angle != 0 {
+			if notNone {
 				return pr.SDimensions{String: "skew", Dimensions: []pr.Dimension{pr.FToD(pr.Fl(angle)), pr.ZeroPixels}}, nil
 			}
 		case "skewy":
-			if notNone && angle != 0 {
+			if notNone {
 				return pr.SDimensions{String: "skew", Dimensions: []pr.Dimension{pr.ZeroPixels, pr.FToD(pr.Fl(angle))}}, nil
 			}
 		case "translatex", "translate":
